@@ -66,6 +66,19 @@ def planted():
         yield f"start: NAME | {ctx.format(a='foo')} {ctx.format(a='undefined_rule')} NEWLINE\n{base_rules}", ("dangling", "undefined_rule", "2nd-alt " + label)
         yield f"start: {ctx.format(a='(_x=NAME NAME)')} NEWLINE\n{base_rules}", ("underscore_var", "_x", label)
         yield f"start: {ctx.format(a='foo')} NEWLINE\n{base_rules}", ("well-formed", None, label)
+    # the defect on the ONLY item of a rule (Rule.flatten() looks through a whole-body group), and an underscore name
+    # on the outer item itself (plain, typed, on a group, on a whole-body group)
+    for c in CONTEXTS:
+        if c.startswith("x="):
+            continue
+        yield f"start: {c.format(a='undefined_rule')}\n{base_rules}", ("dangling", "undefined_rule", "whole-body " + c)
+        yield f"start: {c.format(a='(_x=NAME NAME)')}\n{base_rules}", ("underscore_var", "_x", "whole-body " + c)
+        yield f"start: {c.format(a='foo')}\n{base_rules}", ("well-formed", None, "whole-body " + c)
+        if c[0] not in "&!":
+            for pre in ("_y=", "_y[int]="):
+                yield f"start: {pre}{c.format(a='foo')}\n{base_rules}", ("underscore_var", "_y", "whole-body named " + c)
+                yield f"start: {pre}{c.format(a='foo')} NEWLINE\n{base_rules}", ("underscore_var", "_y", "named " + c)
+                yield f"start: NAME | (NAME {pre}{c.format(a='foo')})\n{base_rules}", ("underscore_var", "_y", "nested named " + c)
     yield "start: NAME\n_r: NAME\n", ("underscore_rule", "_r", "rule")
     yield "begin: NAME\n", ("no_start", None, "grammar")
     yield "@trailer 'pass'\nbegin: NAME\n", ("well-formed", None, "trailer")
@@ -180,6 +193,15 @@ def run(chk: common.Check, tier: str):
     for kf, res in zip(kfs, results[len(to_run):]):
         if crash_of(res):
             chk.known(kf["what"])
+    # a parser generated a SECOND time from the same grammar object must resolve every reference as well
+    again = [(t, d) for t, d in to_run if any(c in t for c in "(*+?[.")][:60 if tier == "quick" else 600]
+    results2 = common.run_parsers([{"grammar": t, "inputs": INPUTS, "regenerate": True} for t, _ in again])
+    for (text, desc), res in zip(again, results2):
+        chk.count()
+        crash = crash_of(res)
+        if crash and not any(kf["witness"]["grammar"] == text for kf in kfs):
+            chk.violation("parser generated a second time from the same accepted grammar crashes: " + crash,
+                          dict(desc, crash=crash, inputs=INPUTS, how="PythonParserGenerator(g, out).generate() twice on one Grammar object"), True)
     if vm is not None:
         failing = common.run_cases(chk, "kcheck", PRELUDE % clist(tokens_set(), cstr), "grammar * option gerr", cases, OK,
                                    shard=300)
